@@ -513,7 +513,14 @@ func (e *Engine) makeIface(v Val, t types.Type) Val {
 			iv.BV = e.sc.declare("ifpayload", SI64)
 		}
 	case PtrVal:
-		iv.Ref = e.ptrScalar(x).T
+		if len(x.Path) > 0 {
+			// a pointer into an object (&s.f) boxed in an interface: the payload is opaque here; the
+			// library models that receive it take what they need from the static type
+			iv.Ref = e.sc.declare("boxed_interior", SRef)
+			e.sc.assume(not(eq(iv.Ref, bvLit(0, 32))))
+		} else {
+			iv.Ref = e.ptrScalar(x).T
+		}
 	case FuncVal:
 		iv.Ref = e.scalar(x).T
 	case StructVal, SliceVal:
